@@ -424,6 +424,77 @@ theorem firstErr_zero (l : List Nat) (h : ∀ c ∈ l, c = 0) : firstErr l = 0 :
     exact ih (fun d hd => h d (List.mem_cons_of_mem _ hd))
 
 -- ---------------------------------------------------------------------------------------------
+-- prefix scans of the order-book store: the records of all books, each tagged with its book uid
+
+def scan {α : Type} (books : List Book) (f : Book → List α) : List (Nat × α) :=
+  (books.map (fun b => (f b).map (fun y => (b.uid, y)))).flatten
+
+theorem mem_scan {α : Type} (books : List Book) (f : Book → List α) (x : Nat × α) :
+    x ∈ scan books f ↔ ∃ b ∈ books, x.1 = b.uid ∧ x.2 ∈ f b := by
+  unfold scan
+  simp only [List.mem_flatten, List.mem_map]
+  constructor
+  · rintro ⟨l, ⟨b, hb, rfl⟩, hx⟩
+    obtain ⟨y, hy, rfl⟩ := List.mem_map.mp hx
+    exact ⟨b, hb, rfl, hy⟩
+  · rintro ⟨b, hb, h1, h2⟩
+    refine ⟨_, ⟨b, hb, rfl⟩, ?_⟩
+    exact List.mem_map.mpr ⟨x.2, h2, by rw [← h1]⟩
+
+theorem book_uid_inj (books : List Book) (hs : Sorted Book.key books) (a b : Book) (ha : a ∈ books) (hb : b ∈ books)
+    (h : a.uid = b.uid) : a = b :=
+  sorted_mem_key_inj Book.key books hs a b ha hb (by simp [Book.key, h])
+
+/-- the records of one book within a scan -/
+theorem filter_scan {α : Type} (books : List Book) (hs : Sorted Book.key books) (f : Book → List α) (B : Book) (hB : B ∈ books) :
+    (scan books f).filter (fun x => x.1 == B.uid) = (f B).map (fun y => (B.uid, y)) := by
+  induction books with
+  | nil => cases hB
+  | cons b bs ih =>
+    have hs' := hs
+    unfold Sorted at hs'
+    rw [List.pairwise_cons] at hs'
+    unfold scan
+    simp only [List.map_cons, List.flatten_cons, List.filter_append]
+    by_cases hbB : b = B
+    · subst hbB
+      have h1 : ((f b).map (fun y => (b.uid, y))).filter (fun x => x.1 == b.uid) = (f b).map (fun y => (b.uid, y)) := by
+        rw [List.filter_eq_self]
+        intro x hx
+        obtain ⟨y, _, rfl⟩ := List.mem_map.mp hx
+        simp
+      have h2 : (scan bs f).filter (fun x => x.1 == b.uid) = [] := by
+        rw [List.filter_eq_nil_iff]
+        intro x hx
+        obtain ⟨c, hc, h1, _⟩ := (mem_scan bs f x).mp hx
+        have := hs'.1 c hc
+        intro heq
+        have : b.uid = c.uid := by
+          have : x.1 = b.uid := by simpa using heq
+          rw [← this, h1]
+        have hlt := hs'.1 c hc
+        simp only [Book.key, this, ltL_irrefl] at hlt
+        cases hlt
+      unfold scan at h2
+      rw [h1, h2]
+      simp
+    · have hB' : B ∈ bs := by
+        rcases List.mem_cons.mp hB with e | e
+        · exact absurd e.symm hbB
+        · exact e
+      have h1 : ((f b).map (fun y => (b.uid, y))).filter (fun x => x.1 == B.uid) = [] := by
+        rw [List.filter_eq_nil_iff]
+        intro x hx
+        obtain ⟨y, _, rfl⟩ := List.mem_map.mp hx
+        intro heq
+        have : b.uid = B.uid := by simpa using heq
+        exact hbB (book_uid_inj (b :: bs) hs b B (List.mem_cons_self ..) hB this)
+      have := ih hs'.2 hB'
+      unfold scan at this
+      rw [h1, this]
+      simp
+
+-- ---------------------------------------------------------------------------------------------
 -- x/ovm proposal stores (sorted by id)
 
 def SortedIds (l : List Ovm.Proposal) : Prop := l.Pairwise (fun a b => a.id < b.id)
